@@ -473,7 +473,10 @@ func (self *Analyzer) TypeCheck(got ast.Type, expected ast.Type, options TypeChe
 		if err := self.TypeCheck(gotFn.ReturnType, expectedFn.ReturnType, options); err != nil {
 			// TODO: include better error message
 			err.GotDiagnostic.Message = fmt.Sprintf("Regarding function's return type: %s", err.GotDiagnostic.Message)
-			err.ExpectedDiagnostic.Message = fmt.Sprintf("Regarding function's return type: %s", err.ExpectedDiagnostic.Message)
+			// not every compatibility error comes with a second diagnostic (parameter kind / count of variadic functions)
+			if err.ExpectedDiagnostic != nil {
+				err.ExpectedDiagnostic.Message = fmt.Sprintf("Regarding function's return type: %s", err.ExpectedDiagnostic.Message)
+			}
 			return err
 		}
 
